@@ -294,8 +294,117 @@ def _path_data(F, fn, block):
     return cache[key]
 
 
+_FILTER_CACHE = {}
+
+
+def filtered_facts(F, I, env):
+    """[(op, a, b, call-block)] comparisons that hold of the value I because it is the payload that survived an
+    `Option::filter(|&x| x < bound)`: I = okval / unwrap / `?` of ok_or(..) / ok_or_else(..) / the filter itself.  The closure's MIR is
+    read: a body that returns one comparison between its argument and a captured value (`x < len`, `len > x`, `x <= last` ...);
+    the captured value is what the closure was built with in the caller's environment."""
+    v = simp(I)
+    for _ in range(12):
+        if not isinstance(v, tuple) or not v:
+            return []
+        if v[0] in ('okval', 'someval', 'cast') and len(v) > 1 and v[0] != 'cast':
+            v = v[1]
+        elif v[0] == 'call' and v[1].endswith(('Option::<T>::ok_or_else', 'Option::<T>::ok_or', 'Option::<T>::unwrap', 'Option::<T>::expect',
+                                               'Result::<T, E>::unwrap', 'Result::<T, E>::expect', 'Option::<T>::unwrap_unchecked')) and v[2]:
+            v = v[2][0]
+        elif v[0] == 'field' and v[2] == '0' and v[1][0] == 'downcast' and v[1][2] in ('Some', 'Ok'):
+            v = v[1][1]
+        elif v[0] == 'call' and v[1].endswith('Option::<T>::filter') and len(v[2]) == 2:
+            break
+        else:
+            return []
+    else:
+        return []
+    clo = v[2][1]
+    while isinstance(clo, tuple) and clo and clo[0] == 'ref' and env is not None and clo[1] in env:
+        clo = env[clo[1]]
+    if not (isinstance(clo, tuple) and clo and clo[0] == 'closure'):
+        return []
+    cpath, caps = clo[1], clo[2]
+    cf = F.fns.get(cpath)
+    if cf is None:
+        return []
+    if cpath not in _FILTER_CACHE:
+        rets = []
+        for p in AbsInt(F, cf, max_paths=200).run():
+            if p.exit == 'return':
+                rets.append(simp(p.env.get('_0')))
+        _FILTER_CACHE[cpath] = rets
+    rets = _FILTER_CACHE[cpath]
+    if len(rets) != 1 or not (isinstance(rets[0], tuple) and rets[0] and rets[0][0] == 'binop' and rets[0][1] in ('Lt', 'Le', 'Gt', 'Ge')):
+        return []
+    r = rets[0]
+
+    def subst(x):
+        # the closure's own argument (`&x` or `x`, possibly through the pattern `|&x|`) is the filtered payload
+        y = x
+        nder = 0
+        while isinstance(y, tuple) and y and y[0] in ('deref', 'cast'):
+            y = y[1]
+            nder += 1
+        if y == ('local', 2):
+            return I
+        if isinstance(y, tuple) and y and y[0] == 'field' and isinstance(y[1], tuple) and y[1] in (('deref', ('local', 1)), ('local', 1)) and str(y[2]).isdigit():
+            k = int(y[2])
+            if k < len(caps):
+                c = caps[k]
+                for _ in range(4):
+                    if isinstance(c, tuple) and c and c[0] == 'ref' and env is not None and c[1] in env:
+                        c = env[c[1]]
+                    else:
+                        break
+                return c
+        return None
+    a, b = subst(r[2]), subst(r[3])
+    if a is None or b is None:
+        return []
+    return [(r[1], a, b, v[3] if len(v) > 3 else None)]
+
+
+def closure_comparison(F, cpath):
+    """(op, left, right) with left/right in {'arg', ('cap', k)} when the closure body is one comparison between its argument and a
+    captured value, else None"""
+    cf = F.fns.get(cpath)
+    if cf is None:
+        return None
+    rets = [simp(p.env.get('_0')) for p in AbsInt(F, cf, max_paths=200).run() if p.exit == 'return']
+    if len(rets) != 1 or not (isinstance(rets[0], tuple) and rets[0] and rets[0][0] == 'binop' and rets[0][1] in ('Lt', 'Le', 'Gt', 'Ge')):
+        return None
+
+    def cls(x):
+        y = x
+        while isinstance(y, tuple) and y and y[0] in ('deref', 'cast'):
+            y = y[1]
+        if y == ('local', 2):
+            return 'arg'
+        if isinstance(y, tuple) and y and y[0] == 'field' and y[1] in (('deref', ('local', 1)), ('local', 1)) and str(y[2]).isdigit():
+            return ('cap', int(y[2]))
+        return None
+    a, b = cls(rets[0][2]), cls(rets[0][3])
+    if a is None or b is None:
+        return None
+    return rets[0][1], a, b
+
+
 def _lt_established(p, pos, I, want_count, env):
     """a constraint before position pos on path p that states I < want_count, not invalidated afterwards"""
+    for (op, a, b, cb) in filtered_facts(p.F if hasattr(p, 'F') else _CUR_F[0], I, env):
+        if op == 'Gt':
+            a, b, op = b, a, 'Lt'
+        if op == 'Lt' and a == I and _count_of(b, env) == want_count:
+            # the bound was read before the filter ran; nothing between that call and the access may change the container
+            frm = None
+            for k, cl in enumerate(p.calls):
+                if cl[1].endswith('Option::<T>::filter') and (cb is None or cl[0] == cb):
+                    frm = p.callpos[k]
+            lens = [p.callpos[k] for k, cl in enumerate(p.calls) if _count_of(('call', cl[1], cl[2]), env) == want_count and p.callpos[k] < pos]
+            start = min(lens) if lens else frm
+            if start is not None and _stable_after(p, start, pos, want_count[2], env):
+                return True
     for ci, (what, val, cb) in enumerate(p.constraints):
         if p.cpos[ci] >= pos or what[0] != 'switch':
             continue
@@ -473,7 +582,11 @@ def assertion_infeasible(F, site):
     return 'D1p', 'the failing branch of the assertion contradicts a tag test taken earlier on each of the %d paths reaching it' % reached
 
 
+_CUR_F = [None]
+
+
 def path_discharge(F, site):
+    _CUR_F[0] = F
     fn = site['f']
     t = site['term']
     b = site['block']
